@@ -88,4 +88,27 @@ CHECKS = {
         "tests": [{"name": "TestC18", "quick": 6000, "thorough": 192000}, {"name": "TestC18Regress", "quick": 0}],
         "assumptions": COMMON_ASSUMPTIONS,
     },
+    "C07": {
+        "level": "exploration",
+        "tests": [{"name": "TestC07Small", "quick": 3000, "thorough": 96000}, {"name": "TestC07Wide", "quick": 150, "thorough": 4800}],
+        "assumptions": COMMON_ASSUMPTIONS + ["document numbers passed to VisitDocumentValues are < Count()"],
+    },
+    "C12": {
+        "level": "fault_enumeration",
+        "tests": [{"name": "TestC12Small", "quick": 40, "thorough": 1280, "min_per_shard": 20}, {"name": "TestC12Blocks", "quick": 3, "thorough": 96, "min_per_shard": 3}],
+        "assumptions": ["the injected writer is a conforming io.Writer (returns n < len(p) together with a non-nil error, fails forever afterwards)",
+                        "the close channel is closed from inside the destination writer's Write, i.e. at byte granularity of what reaches the writer (coarser than the merger's own polls for large buffers)",
+                        COMMON_ASSUMPTIONS[0]],
+    },
+    "C14": {
+        "level": "exploration",
+        "tests": [{"name": "TestC14", "quick": 400, "thorough": 9600}, {"name": "TestC14", "quick": None, "thorough": 1600, "race": True, "max_shards": 8}],
+        "assumptions": [COMMON_ASSUMPTIONS[0], "whether a build really started from a recycled pool object is sampled through the verif hook just before the build (sync.Pool is per-P, so this is evidence, not control)",
+                        "concurrent builders are scheduled by the Go runtime; interleavings are sampled"],
+    },
+    "C15": {
+        "level": "exploration",
+        "tests": [{"name": "TestC15", "quick": 1500, "thorough": 48000}],
+        "assumptions": COMMON_ASSUMPTIONS + ["bitmap representation equality is judged on roaring's serialised bytes"],
+    },
 }
